@@ -145,7 +145,7 @@ fn token_history(cfg: &Cfg, rep: &mut Report, fl: Flavour, h: u64, steps: usize)
         // time passes: a gate that was closed stays closed however long nobody looks at it (list entries
         // and the pause flag do not lapse), allowances expire as they should
         if rng.chance(1, 10) {
-            let t = w.ledger() + *rng.pick(&[1u32, 17, 40, 600, 5000]);
+            let t = w.ledger() + *rng.pick(&[1u32, 17, 40, 600, 5000, 600_000]);
             w.set_ledger(t);
             rep.op(format!("#{step} ledger -> {t}"));
             rep.count("ledger_moves");
@@ -509,7 +509,7 @@ fn real_upgrade(cfg: &Cfg, rep: &mut Report, h: u64) {
 }
 
 pub fn run(cfg: &Cfg, rep: &mut Report) {
-    rep.rule = "(a) pausable and fungible-pausable examples: histories of every pausable entry point with pause/unpause by owner and strangers, signed or not; a wrapper whose entry points carry an owner guard and a pause guard stacked in both orders; (b) allow/block lists on wrappers wiring all five overridden entry points and on the two examples: random histories with list toggles and ledger jumps of up to 5000 plus an exhaustive sweep entry point x assignment of list status to (from, to, spender); (c) fungible-capped example: mints around cap-supply and i128 overflow for caps {0,1,1000,2^70,MAX-1,MAX}; (d) migration: natively registered UpgradeableMigratable contract (flag set as upgrade sets it) and the v1 example upgraded by the working tree's macro to the repository's prebuilt v2 wasm. Distinct case = (mechanism, entry point, gate/list assignment vector, outcome).".into();
+    rep.rule = "(a) pausable and fungible-pausable examples: histories of every pausable entry point with pause/unpause by owner and strangers, signed or not; a wrapper whose entry points carry an owner guard and a pause guard stacked in both orders; (b) allow/block lists on wrappers wiring all five overridden entry points and on the two examples: random histories with list toggles and ledger jumps of up to 600 000 (beyond every lifetime extension the library asks for) plus an exhaustive sweep entry point x assignment of list status to (from, to, spender); (c) fungible-capped example: mints around cap-supply and i128 overflow for caps {0,1,1000,2^70,MAX-1,MAX}; (d) migration: natively registered UpgradeableMigratable contract (flag set as upgrade sets it) and the v1 example upgraded by the working tree's macro to the repository's prebuilt v2 wasm. Distinct case = (mechanism, entry point, gate/list assignment vector, outcome).".into();
     let nh = cfg.pick(12u64, 80);
     for k in 0..nh {
         if cfg.runs(k) {
